@@ -236,6 +236,8 @@ struct Job {
     cfg_bound: u32,
     /// explicit list of strings (the fraction family); `start..end` index into it
     texts: Option<std::sync::Arc<Vec<String>>>,
+    /// shape under this script tag instead of the script's own (the tag sweep)
+    tag_override: Option<u32>,
 }
 
 fn run_job(ctx: &Ctx, job: &Job, data: &[u8], cfgs: &[Config]) -> (u64, u64) {
@@ -247,7 +249,7 @@ fn run_job(ctx: &Ctx, job: &Job, data: &[u8], cfgs: &[Config]) -> (u64, u64) {
     let mut evals = 0u64;
     let mut nontrivial = 0u64;
     let what = |text: &str, cfg: &Config| {
-        json!({"script": sc.name, "font": sc.fonts[job.font % 1000], "text": text.chars().map(|c| format!("U+{:04X}", c as u32)).collect::<Vec<_>>(), "config": format!("{:?}", cfg)})
+        json!({"script": sc.name, "script_tag_override": job.tag_override, "script_tag_override_text": job.tag_override.map(otmodel::tag_str), "font": sc.fonts[job.font % 1000], "text": text.chars().map(|c| format!("U+{:04X}", c as u32)).collect::<Vec<_>>(), "config": format!("{:?}", cfg)})
     };
     for idx in job.start..job.end {
         let text = match &job.texts {
@@ -255,7 +257,7 @@ fn run_job(ctx: &Ctx, job: &Job, data: &[u8], cfgs: &[Config]) -> (u64, u64) {
             None => nth_string(&job.alpha, job.len, idx),
         };
         for cfg in cfgs {
-            let script_tag = if cfg.script_alt { otmodel::tag(b"zzzz") } else { sc.tag };
+            let script_tag = if let Some(t) = job.tag_override { t } else if cfg.script_alt { otmodel::tag(b"zzzz") } else { sc.tag };
             let lang = match cfg.lang {
                 0 => None,
                 1 => Some(tag::DFLT),
@@ -351,7 +353,7 @@ fn run_text(ctx: &Ctx) {
                 let chunk = 4000u64;
                 let mut s = 0;
                 while s < total {
-                    jobs.push(Job { script: si, font: fi, alpha: alpha.clone(), len, start: s, end: (s + chunk).min(total), cfg_bound: bound, texts: None });
+                    jobs.push(Job { script: si, font: fi, alpha: alpha.clone(), len, start: s, end: (s + chunk).min(total), cfg_bound: bound, texts: None, tag_override: None });
                     s += chunk;
                 }
             }
@@ -397,10 +399,31 @@ fn run_text(ctx: &Ctx) {
             let total = texts.len() as u64;
             let mut s0 = 0;
             while s0 < total {
-                jobs.push(Job { script: latin, font: 1000 + fi, alpha: Vec::new(), len: 0, start: s0, end: (s0 + 2000).min(total), cfg_bound: 99, texts: Some(texts.clone()) });
+                jobs.push(Job { script: latin, font: 1000 + fi, alpha: Vec::new(), len: 0, start: s0, end: (s0 + 2000).min(total), cfg_bound: 99, texts: Some(texts.clone()), tag_override: None });
                 s0 += 2000;
             }
         }
+    }
+    // Script tag sweep: every script tag the library knows (old and version 2 Indic tags, both Myanmar tags ...), DFLT and
+    // unknown tags, on every script's first font, for all strings <= 2 (thorough 3) over the first eight letters of the
+    // alphabet: the choice of shaper depends on the tag alone, the text and the font need not match it.
+    {
+        const TAGS: [&[u8; 4]; 36] = [
+            b"arab", b"syrc", b"mong", b"nko ", b"deva", b"dev2", b"beng", b"bng2", b"guru", b"gur2", b"gujr", b"gjr2", b"orya", b"ory2", b"taml", b"tml2",
+            b"telu", b"tel2", b"knda", b"knd2", b"mlym", b"mlm2", b"sinh", b"khmr", b"mymr", b"mym2", b"thai", b"lao ", b"latn", b"grek", b"cyrl", b"hebr",
+            b"hang", b"DFLT", b"zzzz", b"\0\0\0\0",
+        ];
+        let maxlen = if thorough { 3 } else { 2 };
+        for (si, sc) in SCRIPTS.iter().enumerate() {
+            let alpha: Vec<char> = sc.alphabet[..sc.alphabet.len().min(8)].to_vec();
+            for t in TAGS {
+                for len in 0..=maxlen {
+                    let total = (alpha.len() as u64).pow(len as u32);
+                    jobs.push(Job { script: si, font: 0, alpha: alpha.clone(), len, start: 0, end: total, cfg_bound: 0, texts: None, tag_override: Some(otmodel::tag(t)) });
+                }
+            }
+        }
+        ctx.set("script_tag_sweep", json!({"tags": TAGS.len(), "scripts": SCRIPTS.len(), "max_len": maxlen, "alphabet": 8}));
     }
     ctx.set("text_jobs", json!(jobs.len()));
     let cap = if thorough { 1500.0 } else { 45.0 };
@@ -585,7 +608,7 @@ pub fn replay(w: &Value) -> Result<(), String> {
     for kerning in [true, false] {
         cfgs.push(Config { feats: 6, lang: 0, kerning, rtl: false, vertical: false, script_alt: false });
     }
-    let job = Job { script: si, font: fi, alpha: Vec::new(), len: 0, start: 0, end: 1, cfg_bound: 2, texts: Some(std::sync::Arc::new(vec![text])) };
+    let job = Job { script: si, font: fi, alpha: Vec::new(), len: 0, start: 0, end: 1, cfg_bound: 2, texts: Some(std::sync::Arc::new(vec![text])), tag_override: w["script_tag_override"].as_u64().map(|t| t as u32) };
     run_job(&ctx, &job, &data, &cfgs);
     let keys = ctx.violation_keys();
     if keys.is_empty() {
